@@ -13,6 +13,7 @@ import numpy as np
 
 import common
 import popgen
+import t3
 
 
 def simulate_with(df, params, functions, nodes, **kw):
@@ -80,6 +81,7 @@ def run(tier: str) -> int:
               "are deep-compared before/after. distinct = (population, reform).")
     common.build_and_audit(r, ["C06"], leanchecker=not quick)
     rnd = common.rng("C06")
+    t3.run_t3(r, 1000 * common.seed() + 6, 40 if quick else 600)
     for date in (popgen.DATES_QUICK if quick else popgen.DATES_2015[::2]):
         params, functions = popgen.env(date)
         dag, fno = popgen.graph(date)
